@@ -3,6 +3,7 @@ package checks
 import (
 	"encoding/json"
 	"fmt"
+	"math/big"
 	"strings"
 	"time"
 
@@ -73,7 +74,7 @@ func c05Constants(code *gojq.Code) string {
 	var sb strings.Builder
 	for i, c := range gojq.VerifCodes(code) {
 		switch v := c.V.(type) {
-		case []any, map[string]any:
+		case []any, map[string]any, *big.Int:
 			fmt.Fprintf(&sb, "%d:%s;", i, snapshot(v))
 		}
 	}
@@ -143,7 +144,7 @@ func errClass(err error) string {
 func snapshotNoCap(v any) string { return univ.Repr(v) }
 
 // c05History runs every history of the statement on one program; returns a problem or "".
-func c05History(src string, mk func() any, mkOther func() any, mkVar func() any) (problem string, nontrivial bool) {
+func c05History(src string, mk func() any, mkOther func() any, mkVar func() any, opts ...gojq.CompilerOption) (problem string, nontrivial bool) {
 	defer func() {
 		if r := recover(); r != nil {
 			problem = fmt.Sprintf("panic: %v", r)
@@ -153,7 +154,7 @@ func c05History(src string, mk func() any, mkOther func() any, mkVar func() any)
 	if err != nil {
 		return "", false
 	}
-	code, err := gojq.Compile(q, gojq.WithVariables([]string{"$v"}))
+	code, err := gojq.Compile(q, append([]gojq.CompilerOption{gojq.WithVariables([]string{"$v"})}, opts...)...)
 	if err != nil {
 		return "", false
 	}
@@ -403,6 +404,128 @@ func c05Run(c *engine.Ctx) {
 		c.Sample(map[string]any{"program": progs[0], "histories": "every ordered pair of 150 inputs [subject, pattern, flags] (valid and invalid flags) on one Code", "oracle": "the second run equals a run on a fresh Code"})
 	}
 
+	// numbers that are Go pointers (*big.Int) may be shared between the input, variables, folded literals and results:
+	// every short sequence over a small alphabet of integers, under the arithmetic consumers, and every short list of
+	// integer literals
+	c.Sub("number-sharing")
+	{
+		letters := []func() any{func() any { return 0 }, func() any { return 1 }, func() any { return univ.Big("100000000000000000000") }, func() any { return univ.Big("-100000000000000000000") },
+			func() any { return univ.Big("7") }, func() any { return json.Number("100000000000000000000") }}
+		var seqs [][]int
+		var rec func(cur []int)
+		rec = func(cur []int) {
+			if len(cur) >= 2 {
+				seqs = append(seqs, append([]int{}, cur...))
+			}
+			if len(cur) == 4 || c.Quick() && len(cur) == 3 {
+				return
+			}
+			for l := range letters {
+				rec(append(cur, l))
+			}
+		}
+		rec(nil)
+		mkSeq := func(seq []int) func() any {
+			return func() any {
+				objs := make([]any, len(letters)) // one object per letter, so that a repeated letter is one shared pointer
+				out := make([]any, len(seq), len(seq)+2)
+				for i, l := range seq {
+					if objs[l] == nil {
+						objs[l] = letters[l]()
+					}
+					out[i] = objs[l]
+				}
+				return out
+			}
+		}
+		mkBig := func() any { return univ.Big("100000000000000000000") }
+		ni := 0
+		for si, seq := range seqs {
+			for pi, src := range c05NumberPrograms {
+				ni++
+				if !c.MineIdx(ni) || c.Expired() {
+					continue
+				}
+				key := fmt.Sprintf("%s\tseq%v", src, seq)
+				if !c.Guard(key) {
+					continue
+				}
+				c.Eval()
+				msg, nt := c05History(src, mkSeq(seq), mkSeq(seqs[(si+7)%len(seqs)]), mkBig)
+				c.Unguard()
+				if msg != "" {
+					c.Violation(key, "isolation", map[string]any{"query": src, "seq": seq, "program_index": pi, "why": msg})
+				}
+				if nt {
+					c.DistinctN(1)
+				}
+			}
+		}
+		lits := []string{"0", "1", "100000000000000000000", "-100000000000000000000", "10000000000000000000"}
+		var lseqs [][]string
+		for _, a := range lits {
+			for _, b := range lits {
+				lseqs = append(lseqs, []string{a, b})
+				for _, d := range lits {
+					lseqs = append(lseqs, []string{a, b, d})
+				}
+			}
+		}
+		for _, ls := range lseqs {
+			list := strings.Join(ls, ", ")
+			for _, form := range []string{"[%s] | add", "[%s] | add, add", "add(%s)", "reduce (%s) as $x (0; . + $x)", "[%s] as $a | [($a | add), $a, ($a | add)]", "[%s] | [.[0], add, .[0] + 1, .]", "[foreach (%s) as $x (0; . + $x)]",
+				"[%s] as [$a, $b] | [0, $a, 1 + $b] | add, $a, $b + 1", "[limit(4; (%s) | . + 0)] | [add, .]", "[%s] | map(. + 0) | [add, .]", "[%s] | (.[0] += 1) | [add, .]"} {
+				ni++
+				if !c.MineIdx(ni) || c.Expired() {
+					continue
+				}
+				src := strings.ReplaceAll(form, "%s", list)
+				if !c.Guard(src) {
+					continue
+				}
+				c.Eval()
+				msg, nt := c05History(src, func() any { return nil }, func() any { return 1 }, mkBig)
+				c.Unguard()
+				if msg != "" {
+					c.Violation(src, "isolation", map[string]any{"query": src, "literals": true, "why": msg})
+				}
+				if nt {
+					c.DistinctN(1)
+				}
+			}
+		}
+		c.Sample(map[string]any{"program": "add", "input": "[big(100000000000000000000), 0, 1] (the same *big.Int object wherever a letter repeats)", "sequences": len(seqs), "programs": len(c05NumberPrograms), "literal_lists": len(lseqs)})
+	}
+
+	// functions given through WithFunction / WithIterFunction that hand the interpreter's values back: what they were
+	// given stays the caller's
+	c.Sub("custom-functions")
+	{
+		ci := 0
+		for _, src := range c05CustomPrograms {
+			for ii, mk := range ins {
+				ci++
+				if !c.MineIdx(ci) || c.Expired() {
+					continue
+				}
+				key := fmt.Sprintf("%s\tinput#%d", src, ii)
+				if !c.Guard(key) {
+					continue
+				}
+				c.Eval()
+				msg, nt := c05History(src, mk, ins[(ii+1)%len(ins)], ins[(ii+3)%len(ins)], c05CustomOptions()...)
+				c.Unguard()
+				if msg != "" {
+					c.Violation(key, "isolation", map[string]any{"query": src, "input_index": ii, "custom": true, "why": msg})
+				}
+				if nt {
+					c.DistinctN(1)
+				}
+			}
+		}
+		c.Sample(map[string]any{"program": "$v, (members($v) | tojson), $v", "functions": "each/0 and members/1 return gojq.NewIter(array...), same/0, arg/1, pair/2, args/1..3 return what they were given", "programs": len(c05CustomPrograms)})
+	}
+
 	c.Sub("corpus")
 	for i, src := range CorpusQueries() {
 		if !c.MineIdx(i) || c.Expired() {
@@ -413,6 +536,59 @@ func c05Run(c *engine.Ctx) {
 		}
 		runProg(src, "corpus")
 	}
+}
+
+var c05NumberPrograms = []string{"add", "add(.[])", "reduce .[] as $x (0; . + $x)", "reduce .[] as $x (null; . + $x)", "[foreach .[] as $x (0; . + $x)]", "[foreach .[] as $x (null; . + $x; [., $x])]",
+	". as [$a, $b] | [$a + $b, $a, $b, $a - $b, $a * $b, $a]", "[map(. + 0), map(0 + .), .]", "[map(. - 0), map(. * 1), map(1 * .), map(. / 1), .]", "[.[] | -(-.)], [.[] | abs], .", "[.[0], (.[0] += 1), .[0]]",
+	"$v, ([$v, 0, 1] | add), $v", "[$v + 0, 0 + $v] | (.[0] += 1), $v", "[.[] | . as $x | [$x, 0, 1] | add], .", "(.[0] + 0) as $s | [$s, ($s + 1), $s, .[0]]", "[limit(3; .[0] | repeat(. + 0))], .", "[add, add, .]",
+	". as $x | ($x | add) as $s | [$s, ($x + [1] | add), $s]", "[min, max, (sort | .[0]), unique, .]", "[.[] | tostring, tojson], .", "[.[] | (. % 7)?], .", "[add, ([.[], $v] | add), add, $v]", "(. + [0, 1] | add), .",
+	"[.[0] + .[1]] as $r | [$r[0], ($r + [1] | add), $r[0]]", "add as $s | [$s, ([$s, 0, 1] | add), $s]", "[.[] | [., 0] | add] | [., add, .]", "to_entries | map(.value) | add", "[.[:2] | add, add], .", "[add(.[] | . + 0), add(.[] | 0 + .)], ."}
+
+var c05CustomPrograms = []string{"each", "[each]", "each, .", "[each], [each]", "members(.)", "members($v)", "$v, (members($v) | tojson), $v", ". , (members(.) | tojson), .", "[.[]? | arg(.)]", "pair(.; $v)", "args(.; 1)", "[.[]? | args(.; .)]",
+	"[limit(1; each)], [each]", "first(each), .", "each as $x | [$x, .]", "[each | each?]", "reduce each as $x (null; . + ($x | tojson))", "same, .", "[same, arg(.), pair(.; .)]", "[members(.[]?)]", "[members(.[1:]?)]", "[members(.[:2]?)]",
+	"[.[]? | args(.; 1; 2)] | ., .", "[each] | members(.)", "first(members(.)), last(members(.)), .", "[limit(2; members($v))], $v", "label $out | each | ., break $out", "[each] == [.[]?], .", "members([.[]?, 1])", "isempty(each), [each]"}
+
+func c05CustomOptions() []gojq.CompilerOption {
+	spread := func(v any) gojq.Iter {
+		if a, ok := v.([]any); ok {
+			return gojq.NewIter(a...)
+		}
+		return gojq.NewIter(v)
+	}
+	return []gojq.CompilerOption{
+		gojq.WithIterFunction("each", 0, 0, func(v any, _ []any) gojq.Iter { return spread(v) }),
+		gojq.WithIterFunction("members", 1, 1, func(_ any, xs []any) gojq.Iter { return spread(xs[0]) }),
+		gojq.WithFunction("same", 0, 0, func(v any, _ []any) any { return v }),
+		gojq.WithFunction("arg", 1, 1, func(_ any, xs []any) any { return xs[0] }),
+		gojq.WithFunction("pair", 2, 2, func(_ any, xs []any) any { return []any{xs[0], xs[1]} }),
+		gojq.WithFunction("args", 1, 3, func(_ any, xs []any) any { return xs }),
+	}
+}
+
+func c05ReplayNumbers(src string, seq []any, literals bool) (bool, string) {
+	letters := []func() any{func() any { return 0 }, func() any { return 1 }, func() any { return univ.Big("100000000000000000000") }, func() any { return univ.Big("-100000000000000000000") },
+		func() any { return univ.Big("7") }, func() any { return json.Number("100000000000000000000") }}
+	mk := func() any {
+		if literals {
+			return nil
+		}
+		objs := make([]any, len(letters))
+		out := make([]any, len(seq), len(seq)+2)
+		for i, l := range seq {
+			k := int(l.(float64))
+			if objs[k] == nil {
+				objs[k] = letters[k]()
+			}
+			out[i] = objs[k]
+		}
+		return out
+	}
+	for rep := 0; rep < 5; rep++ {
+		if msg, _ := c05History(src, mk, func() any { return []any{1, 0} }, func() any { return univ.Big("100000000000000000000") }); msg != "" {
+			return true, msg
+		}
+	}
+	return false, "no isolation problem in 5 repetitions"
 }
 
 func c05JSON(v any) string {
@@ -429,8 +605,19 @@ func c05Replay(v *engine.Violation) (bool, string) {
 		got, fresh := RunCode(code, b, 20000).String(), RunCode(MustCompile(src), b, 20000).String()
 		return got != fresh, fmt.Sprintf("fresh: %s\nafter %s: %s", fresh, v.Detail["first"], got)
 	}
+	if seq, ok := v.Detail["seq"].([]any); ok || v.Detail["literals"] == true {
+		return c05ReplayNumbers(src, seq, v.Detail["literals"] == true)
+	}
 	ii := int(v.Detail["input_index"].(float64))
 	ins := c05Inputs()
+	if v.Detail["custom"] == true {
+		for rep := 0; rep < 5; rep++ {
+			if msg, _ := c05History(src, ins[ii], ins[(ii+1)%len(ins)], ins[(ii+3)%len(ins)], c05CustomOptions()...); msg != "" {
+				return true, msg
+			}
+		}
+		return false, "no isolation problem in 5 repetitions"
+	}
 	for rep := 0; rep < 5; rep++ {
 		if msg, _ := c05History(src, ins[ii], ins[(ii+1)%len(ins)], ins[(ii+3)%len(ins)]); msg != "" {
 			return true, msg
